@@ -73,6 +73,42 @@ theorem sync_install_or_nothing (spa cli : Block) (start len budget : Nat) (evs 
   rw [chain_data] at this
   exact this
 
+/-- `retry_request` starts every transfer from a clean assembly state (the two generated facts, read off the source) -/
+theorem restart_eq_start (prev : SyncAsm) (budget : Nat) : SyncAsm.restart prev budget = SyncAsm.start prev.cli budget := by
+  simp [SyncAsm.restart, SyncAsm.start, syncRequestResetsNext, syncRequestResetsSegments]
+
+/-- **threaded, histories of transfers on one structure**: whatever an earlier transfer — failed half-way, succeeded, anything —
+left behind in the structure (`prev` is arbitrary), the next transfer installs exactly its spa's bytes into the block as
+it stood, or leaves it untouched, with at most 1 + budget requests -/
+theorem sync_transfer_install_or_nothing (prev : SyncAsm) (x : Xfer)
+    (hg : ∀ s, Ev.seg s ∈ x.evs → s ∈ simChain x.spa x.start x.len) :
+    let a := prev.transfer x
+    (a.installed = true → a.cli = replaceSeg prev.cli x.start (spaRun x.spa x.start x.len)) ∧
+    (a.installed = false → a.cli = prev.cli) ∧ a.sends ≤ 1 + x.budget := by
+  simp only [SyncAsm.transfer, restart_eq_start]
+  exact sync_install_or_nothing x.spa prev.cli x.start x.len x.budget x.evs hg
+
+/-- every transfer of every history obeys the clause relative to the block as the previous transfer left it
+(`prev :: history prev xs` lists the structure's state before the 1st, 2nd, … transfer) -/
+theorem sync_history_install_or_nothing (xs : List Xfer)
+    (hg : ∀ x ∈ xs, ∀ s, Ev.seg s ∈ x.evs → s ∈ simChain x.spa x.start x.len) :
+    ∀ (prev : SyncAsm) (i : Nat) (b a : SyncAsm) (x : Xfer),
+      (prev :: SyncAsm.history prev xs)[i]? = some b → (SyncAsm.history prev xs)[i]? = some a → xs[i]? = some x →
+      (a.installed = true → a.cli = replaceSeg b.cli x.start (spaRun x.spa x.start x.len)) ∧
+      (a.installed = false → a.cli = b.cli) ∧ a.sends ≤ 1 + x.budget := by
+  induction xs with
+  | nil => intro prev i b a x _ h; simp [SyncAsm.history] at h
+  | cons y ys ih =>
+    intro prev i b a x hb ha hx
+    cases i with
+    | zero =>
+      simp only [SyncAsm.history, List.getElem?_cons_zero, Option.some.injEq] at hb ha hx
+      subst hb ha hx
+      exact sync_transfer_install_or_nothing prev y (hg y (by simp))
+    | succ j =>
+      simp only [SyncAsm.history, List.getElem?_cons_succ] at hb ha hx
+      exact ih (fun x hx => hg x (by simp [hx])) (prev.transfer y) j b a x hb ha hx
+
 /-- **fault-free network, bundled simulator: the transfer succeeds for every start and every positive length**, on the
 first attempt (full statement — it holds since the `fix:` commit that made the last segment's `next` 0 for lengths that
 are multiples of 39; the generated `simSegNext` is what this is proved about) -/
